@@ -14,13 +14,20 @@ pub fn drive_c14(a: &Args, w: &Words) {
         let mut rng = Rng::new(a.seed ^ 0x1401);
         let mut rec = crate::gen::GenRec::new(&mut sh);
         rec.fin_every_call = false;
-        for k in [0usize, 1, 2, 5, 9, 14, 21, 29, 30] {
+        for k in [0usize, 1, 2, 5, 7, 8, 9, 14, 15, 16, 17, 18, 21, 29, 30] {
             for (total, upper, order) in [(64usize, 31usize, 0u8), (64, 32, 1), (65, 31, 2)] {
                 let seq = crate::gen::corner_seq(&mut rng, w, k, total, upper, order);
                 rec.begin();
                 rec.zeros(0, (192u64 << k) + 5);
                 rec.update(0, (k % 6) as u8, &seq);
                 rec.fin(0);
+                // the lower bound has advanced: one word of every level, each testing one bit of the
+                // rolling-hash mask (those below the bound must be ignored)
+                if order != 1 {
+                    let sweep = crate::gen::level_sweep(&mut rng, w);
+                    rec.update(0, ((k + 1) % 6) as u8, &sweep);
+                    rec.fin(0);
+                }
             }
         }
         for i in 0..(10 * mul) {
